@@ -108,6 +108,12 @@ func isValidBranchName(branchName string) bool {
 	if branchName == "" || branchName == "." || branchName == ".." {
 		return false
 	}
+	for i := 0; i < len(branchName); i++ {
+		// a control character (line break, tab ...) would end up inside HEAD and the reflog lines
+		if branchName[i] < 0x20 || branchName[i] == 0x7f {
+			return false
+		}
+	}
 	return !strings.ContainsAny(branchName, `/\`)
 }
 
